@@ -26,7 +26,7 @@ INCONCLUSIVE_REASONS = ("inconclusive-not-best-prevblk",)
 
 
 def runs(tier, seed):
-    n = 900 if tier == "thorough" else 10
+    n = 900 if tier == "thorough" else 12
     to = 3000 if tier == "thorough" else 1200
     return [
         Run("c65_waitnext", cases=n, flavour="tsan", name="waitnext-tsan", params={"waits": 6}, timeout=to),
